@@ -424,9 +424,9 @@ pub fn run_controller(rng: &mut Rng, rep: &mut Report) {
 }
 
 pub fn run(cfg: &RunCfg) -> Report {
-    let cases = cfg.cases(20_000, 400_000);
+    let cases = cfg.cases(20_000, 2_000_000);
     let mut rep = run_cases(cfg, 0, cases, Duration::from_secs(3600), |_c, rng, rep| run_bare(rng, rep));
-    let c2 = cfg.cases(6_000, 120_000);
+    let c2 = cfg.cases(6_000, 600_000);
     rep.merge(run_cases(cfg, 1, c2, Duration::from_secs(3600), |_c, rng, rep| run_controller(rng, rep)));
     rep
 }
